@@ -26,5 +26,7 @@ func init() {
 		MinRuns:    30,
 		Exec:       RunC02,
 		PanicClass: kit.PanicInRepo("engine-panic"),
+		// reach probes every batch is expected to hit (listed in the evidence as probes_never_hit otherwise)
+		ExpectedProbes: []string{"Byzantine frame while the voter lags behind the engine", "certificate commit", "certificate tally exactly at quorum", "commit event", "equivocation after the quorum was crossed", "equivocator's first vote already counted", "evidence emitted", "future vote cached", "future vote delivered after context change", "header update event", "index change by votes", "old-context precommit recorded", "own certificate vote", "own precommit", "round-index timeout", "second vote of one kind in one context", "stored header votes updated", "tally exactly at quorum", "tally one above quorum", "tally one below quorum", "tally reaches exactly the quorum", "validator restarted", "vote repeated by a later incarnation"},
 	})
 }
